@@ -12,6 +12,8 @@ Local Open Scope N_scope.
 Definition byte := N.
 Definition wf_byte (b : byte) : bool := b <? 256.
 Definition wf_bytes (l : list byte) : bool := forallb wf_byte l.
+(* compact notation for runs of one byte in generated case files *)
+Definition rp (b : N) (n : nat) : list byte := repeat b n.
 
 (* big-endian, fixed width (in bytes) *)
 Fixpoint be (w : nat) (n : N) : list byte :=
